@@ -1408,12 +1408,13 @@ func (client *client) pollInflights() (cont bool, err error) {
 }
 
 func (client *client) pollNewMessages(ids []packets.PacketID) (unused []packets.PacketID, err error) {
-	now := time.Now()
 	var elems []*queue.Elem
 	elems, err = client.queueStore.Read(ids)
 	if err != nil {
 		return nil, err
 	}
+	// Read blocks until there are messages, take the time afterwards.
+	now := time.Now()
 	for _, v := range elems {
 		switch m := v.MessageWithID.(type) {
 		case *queue.Publish:
@@ -1421,8 +1422,13 @@ func (client *client) pollNewMessages(ids []packets.PacketID) (unused []packets.
 				ids = ids[1:]
 			}
 			if client.version == packets.Version5 && m.Message.MessageExpiry != 0 {
-				d := uint32(now.Sub(v.At).Seconds())
-				m.Message.MessageExpiry = d
+				// forward the remaining lifetime: the received value minus the time
+				// the message has been waiting in the server.
+				if d := uint32(now.Sub(v.At).Seconds()); d < m.Message.MessageExpiry {
+					m.Message.MessageExpiry -= d
+				} else {
+					m.Message.MessageExpiry = 1
+				}
 			}
 			client.write(gmqtt.MessageToPublish(m.Message, client.version))
 		case *queue.Pubrel:
